@@ -35,11 +35,11 @@ from vf.props import c14 as B
 
 PROP_ID = 'C15'
 LEVEL = 'exploration'
-BUDGET = {'quick': 2000, 'thorough': 80000}     # Hypothesis part
+BUDGET = {'quick': 2000, 'thorough': 50000}     # Hypothesis part
 RULE = (
     'Part 1 (exhaustive, every run): the product of 14 family qualifiers x '
     'family size 1-4 x flat/nested family x 9 positions x offset (left '
-    'positions) x optional mark (where the qualifier admits it), about 2900 '
+    'positions) x optional mark (where the qualifier admits it), 1767 '
     'cases.  Part 2 (Hypothesis): 1-3 chains of 1-3 nodes over 2 families '
     '(SUB nested in FAM, 1-4 leaf members) and 3 plain tasks, family atoms '
     'with any qualifier consistent with a drawn per-case optionality profile, '
@@ -266,7 +266,7 @@ def cases(draw):
             for _j in range(k):
                 if draw(st.integers(0, 2)) != 1:
                     if (pos == 'last' and ln > 1
-                            and draw(st.integers(0, 3)) == 2):
+                            and draw(st.integers(0, 3)) >= 2):
                         atoms.append({'n': draw(st.sampled_from(famnames)),
                                       'o': '', 'q': '', 'opt': False})
                     else:
